@@ -90,3 +90,59 @@ Proof.
   - intros lc W. exact (a64_codegen_total _ lc LC W).
   - intros lc W. exact (rv_codegen_total _ lc LC W).
 Qed.
+
+(* ---------- the composition with guards on the SOURCE program only ---------- *)
+From SCC Require Import Proof.FocusNamesTop Proof.UqTyTop Proof.UqAeq Proof.FocusTheorems Proof.CoreTyRules.
+
+Lemma xtor_tys_of_source : forall p c, compile_prog p = Fun2Core.Ok c -> xtor_tys_guard p = true -> xtor_tys_ok c = true.
+Proof.
+  intros p c H Hg. unfold compile_prog, compile_prog_gen in H.
+  destruct (compile_defs false (fcpdefs p) _ _ [] []) as [defs|?]; simpl in H; [|discriminate].
+  injection H as <-. exact Hg.
+Qed.
+
+(* parameter types stay declared through uniquify + focus; field types are those of the input *)
+Lemma focus_decls_ok : forall c f, wt_core c = true -> pre_check c = true -> xtor_tys_ok c = true ->
+  focus_prog c = Backend.Ok f -> FsFrag2.decls_ok f = true.
+Proof.
+  intros c f Hwt Hpre Hxt Hf. destruct (focus_decls c f Hf) as [E1 E2].
+  unfold FsFrag2.decls_ok. rewrite E1, E2. apply andb_true_iff. split; [|exact Hxt].
+  assert (Hids : forallb (ids_le_def (cpmax c)) (cpdefs c) = true).
+  { unfold pre_check in Hpre. rewrite forallb_forall in *. intros d Hd. specialize (Hpre d Hd). unfold pre_def in Hpre.
+    apply andb_true_iff in Hpre. destruct Hpre as [Hpre _]. apply andb_true_iff in Hpre. tauto. }
+  unfold focus_prog in Hf. apply rbind_ok in Hf. destruct Hf as (c1 & Eu & Hf).
+  pose proof (uniquify_preserves_typing c c1 Hwt Hids Eu) as Hwt1.
+  apply rbind_ok in Hf. destruct Hf as ([qs M'] & Ef & Hf). okinv Hf. cbn [fspdefs].
+  unfold uniquify_prog in Eu. apply rbind_ok in Eu. destruct Eu as ([ds1 m1] & E & Eu). okinv Eu.
+  cbn [cpdefs cpmax cpdata cpcodata] in *.
+  unfold wt_core in Hwt1. destruct (check_core (mkcp ds1 (cpdata c) (cpcodata c) m1)) eqn:Hc1; [discriminate|]. clear Hwt1.
+  unfold check_core in Hc1. cbn [cpdefs cpdata cpcodata] in Hc1.
+  apply seqn in Hc1. destruct Hc1 as [_ Hc1]. apply seqn in Hc1. destruct Hc1 as [_ Hc1]. apply seqn in Hc1. destruct Hc1 as [_ Hc1].
+  apply seqn in Hc1. destruct Hc1 as [_ Hc1]. apply seqn in Hc1. destruct Hc1 as [_ C6].
+  pose proof (focus_defs_like _ _ _ _ Ef) as Hlike.
+  apply forallb_forall. intros q Hq.
+  assert (Hex : exists d, In d ds1 /\ fsdctx q = cdctx d).
+  { clear -Hlike Hq. induction Hlike as [|a b r r1 [_ Hc] _ IH]; [contradiction|].
+    destruct Hq as [<-|Hq]; [exists a; split; [left; reflexivity | exact Hc]|].
+    destruct (IH Hq) as [d [Hd Hd2]]. exists d. split; [right; exact Hd | exact Hd2]. }
+  destruct Hex as [d [Hd Hctx]]. rewrite Hctx.
+  destruct (ccheck_defs_elim (mkcp ds1 (cpdata c) (cpcodata c) m1) ds1 C6 d Hd) as [_ [H2 _]]. exact H2.
+Qed.
+
+Theorem pipeline_wt_source_lemma : forall p,
+  prog_tyguard p = true -> xtor_tys_guard p = true ->
+  exists c f a,
+    compile_prog p = Fun2Core.Ok c /\ wt_core c = true /\
+    focus_prog c = Backend.Ok f /\ wt_fs f = true /\
+    shrink_prog f = SOk a /\ AxCheck.wt_ax a = true /\ prog_ok a = true /\
+    let l := linearize a in
+    lin_check_prog l = true /\
+    (forall lc, within_capacity_x86 l = true -> exists code lc', x86_compile l lc = Backend.Ok (code, main_arity l, lc')) /\
+    (forall lc, within_capacity_a64 l = true -> exists code lc', a64_compile l lc = Backend.Ok (code, main_arity l, lc')) /\
+    (forall lc, within_capacity_rv l = true -> exists code lc', rv_compile l lc = Backend.Ok (code, main_arity l, lc')).
+Proof.
+  intros p HG HX. apply pipeline_wt_lemma; [exact HG|]. intros c f EC EF.
+  pose proof (fun2core_preserves_typing_frag2 p c HG EC) as WC.
+  pose proof (fun2core_pre_check p c EC) as PC.
+  split; [exact (focus_names_thm c f WC PC EF) | exact (focus_decls_ok c f WC PC (xtor_tys_of_source p c EC HX) EF)].
+Qed.
